@@ -377,4 +377,154 @@ theorem ballBall_verdicts_pred0 (hs : LawfulSqrt sq) (pos12 : Iso3 K) (r1 r2 mar
     by_cases h2 : s - margin ≤ r1 + r2 <;>
       simp [hI, h1, h2, h3, h4, h5, ClosestPoints3.isIntersecting, contactNonPositive]
 
+
+/-! ## separating-axis test for two cuboids: soundness of `intersection_test_cuboid_cuboid` -/
+
+/-- the two posed boxes share a point (`pos12` = pose of box 2 in the frame of box 1) -/
+def BoxesMeet (he1 he2 : V3 K) (pos12 : Iso3 K) : Prop :=
+  letI := fieldNum K sq
+  ∃ p q, (Cuboid3.mk he1).Mem p ∧ (Cuboid3.mk he2).Mem q ∧ p = pos12.act q
+
+/-- along ANY axis `a`, the support-point separation `(pos12·s2(-a) - s1(a))·a` is `≤ 0` when the boxes meet -/
+private theorem axis_sound (he1 he2 a : V3 K) (pos12 : Iso3 K) (h : Unit3 pos12)
+    (h1 : 0 ≤ he1.x ∧ 0 ≤ he1.y ∧ 0 ≤ he1.z) (h2 : 0 ≤ he2.x ∧ 0 ≤ he2.y ∧ 0 ≤ he2.z)
+    (hm : BoxesMeet sq he1 he2 pos12) :
+    letI := fieldNum K sq
+    ((pos12.act (cuboidLocalSupport he2 (pos12.invRot a.neg))).sub (cuboidLocalSupport he1 a)).dot a ≤ 0 := by
+  obtain ⟨p, q, hp, hq, hpq⟩ := hm
+  have s1 := (cuboid_localSupport_spec sq he1 a h1).2 p hp
+  have s2 := (cuboid_localSupport_spec sq he2 (@Iso3.invRot K (fieldNum K sq) pos12 (@V3.neg K (fieldNum K sq) a)) h2).2 q hq
+  generalize @cuboidLocalSupport K (fieldNum K sq) he1 a = l1 at s1 ⊢
+  generalize @cuboidLocalSupport K (fieldNum K sq) he2 _ = l2 at s2 ⊢
+  rw [invRot_neg] at s2
+  have a1 := (iso3_invRot_dot sq pos12 a q h).2
+  have a2 := (iso3_invRot_dot sq pos12 a l2 h).2
+  generalize @Iso3.invRot K (fieldNum K sq) pos12 a = u at s2 a1 a2
+  subst hpq
+  simp only [Iso3.act] at s1 ⊢
+  generalize @Iso3.rot K (fieldNum K sq) pos12 q = A at s1 a1
+  generalize @Iso3.rot K (fieldNum K sq) pos12 l2 = B at a2 ⊢
+  simp only [V3.dot, V3.add, V3.sub, V3.neg] at s1 s2 a1 a2 ⊢
+  linarith
+
+private theorem lit_pos (n : ℕ) (hn : 0 < n) : (0 : K) < @lit K (fieldNum K sq) (n : ℤ) 1 := by
+  simp only [fieldNum_lit]
+  have : (0 : ℚ) < mkRat (n : ℤ) 1 := by rw [Rat.mkRat_one]; exact_mod_cast hn
+  exact_mod_cast this
+
+private theorem negRealMax_neg : @negRealMax K (fieldNum K sq) < 0 := by
+  unfold negRealMax
+  rw [neg_lt_zero]
+  apply lit_pos
+  apply Nat.mul_pos
+  · exact Nat.sub_pos_of_lt (by norm_num)
+  · exact pow_pos (by norm_num) _
+
+private theorem foldl_inv {α β : Type} (Inv : β → Prop) (step : β → α → β) (hstep : ∀ b x, Inv b → Inv (step b x))
+    (l : List α) (b : β) (hb : Inv b) : Inv (l.foldl step b) := by
+  induction l generalizing b with
+  | nil => exact hb
+  | cons x xs ih => exact ih _ (hstep b x hb)
+
+/-- the edge-edge pass never reports a positive separation for boxes that meet -/
+private theorem satEdgeTwoway_sound (he1 he2 : V3 K) (pos12 : Iso3 K) (h : Unit3 pos12)
+    (h1 : 0 ≤ he1.x ∧ 0 ≤ he1.y ∧ 0 ≤ he1.z) (h2 : 0 ≤ he2.x ∧ 0 ≤ he2.y ∧ 0 ≤ he2.z)
+    (hm : BoxesMeet sq he1 he2 pos12) :
+    letI := fieldNum K sq
+    (satEdgeTwoway he1 he2 pos12).1 ≤ 0 := by
+  unfold satEdgeTwoway
+  apply foldl_inv (fun b : K × V3 K => b.1 ≤ 0)
+  · intro b x hb
+    simp only [satEdgeStep]
+    split_ifs with c1 c2
+    · exact axis_sound sq he1 he2 _ pos12 h h1 h2 hm
+    · exact hb
+    · exact hb
+  · exact (negRealMax_neg sq).le
+
+private theorem sign_cases (d : K) : @copySign K (fieldNum K sq) d 1 = 1 ∨ @copySign K (fieldNum K sq) d 1 = -1 := by
+  rw [fieldNum_copySign sq d 1 zero_le_one]
+  split_ifs <;> simp
+
+/-- one face-normal candidate: `sign · pt2_i - he1_i ≤ 0` when the boxes meet -/
+private theorem normal_step_sound (he1 he2 : V3 K) (pos12 : Iso3 K) (h : Unit3 pos12)
+    (h2 : 0 ≤ he2.x ∧ 0 ≤ he2.y ∧ 0 ≤ he2.z) (hm : BoxesMeet sq he1 he2 pos12) (i : ℕ) (sg : K) (hsg : sg = 1 ∨ sg = -1) :
+    letI := fieldNum K sq
+    (pos12.act (cuboidLocalSupport he2 (pos12.invRot (V3.ith i sg).neg))).get i * sg - he1.get i ≤ 0 := by
+  obtain ⟨p, q, hp, hq, hpq⟩ := hm
+  have s2 := (cuboid_localSupport_spec sq he2 (@Iso3.invRot K (fieldNum K sq) pos12 (@V3.neg K (fieldNum K sq) (@V3.ith K (fieldNum K sq) i sg))) h2).2 q hq
+  generalize @cuboidLocalSupport K (fieldNum K sq) he2 _ = l2 at s2 ⊢
+  rw [invRot_neg] at s2
+  have a1 := (iso3_invRot_dot sq pos12 (@V3.ith K (fieldNum K sq) i sg) q h).2
+  have a2 := (iso3_invRot_dot sq pos12 (@V3.ith K (fieldNum K sq) i sg) l2 h).2
+  generalize @Iso3.invRot K (fieldNum K sq) pos12 _ = u at s2 a1 a2
+  subst hpq
+  obtain ⟨⟨px1, px2⟩, ⟨py1, py2⟩, pz1, pz2⟩ := hp
+  simp only [Iso3.act] at px1 px2 py1 py2 pz1 pz2 ⊢
+  generalize @Iso3.rot K (fieldNum K sq) pos12 q = A at a1 px1 px2 py1 py2 pz1 pz2
+  generalize @Iso3.rot K (fieldNum K sq) pos12 l2 = B at a2 ⊢
+  simp only [V3.dot, V3.add, V3.neg] at s2 a1 a2 px1 px2 py1 py2 pz1 pz2 ⊢
+  unfold V3.ith at a1 a2
+  unfold V3.get
+  by_cases i0 : i = 0
+  · subst i0
+    simp only [if_true] at a1 a2 ⊢
+    rcases hsg with rfl | rfl <;> nlinarith
+  · by_cases i1 : i = 1
+    · subst i1
+      simp only [Nat.one_ne_zero, if_true, if_false] at a1 a2 ⊢
+      rcases hsg with rfl | rfl <;> nlinarith
+    · simp only [i0, i1, if_false] at a1 a2 ⊢
+      rcases hsg with rfl | rfl <;> nlinarith
+
+/-- the face-normal pass never reports a positive separation for boxes that meet -/
+private theorem satNormalOneway_sound (he1 he2 : V3 K) (pos12 : Iso3 K) (h : Unit3 pos12)
+    (h2 : 0 ≤ he2.x ∧ 0 ≤ he2.y ∧ 0 ≤ he2.z)
+    (hm : BoxesMeet sq he1 he2 pos12) :
+    letI := fieldNum K sq
+    (satNormalOneway he1 he2 pos12).1 ≤ 0 := by
+  unfold satNormalOneway
+  apply foldl_inv (fun b : K × V3 K => b.1 ≤ 0)
+  · intro b i hb
+    simp only [satNormalStep]
+    split_ifs with c1
+    · exact normal_step_sound sq he1 he2 pos12 h h2 hm i _ (sign_cases sq _)
+    · exact hb
+  · exact (negRealMax_neg sq).le
+
+/-- **Soundness of `intersection_test_cuboid_cuboid` (3-D SAT)**: if the two posed cuboids share a point, the test
+answers `true`; equivalently `false` certifies disjointness — whichever of the 3 + 3 + 9 axes produced the positive
+separation.  (The converse — 15 axes suffice — is the separating-axis theorem for boxes and is covered here by the
+exact rational 15-axis oracle, not by a proof.) -/
+theorem intersectionTestCuboidCuboid_sound (he1 he2 : V3 K) (pos12 : Iso3 K) (h : Unit3 pos12)
+    (h1 : 0 ≤ he1.x ∧ 0 ≤ he1.y ∧ 0 ≤ he1.z) (h2 : 0 ≤ he2.x ∧ 0 ≤ he2.y ∧ 0 ≤ he2.z)
+    (hm : BoxesMeet sq he1 he2 pos12) :
+    letI := fieldNum K sq
+    intersectionTestCuboidCuboid pos12 he1 he2 = true := by
+  have e1 := satNormalOneway_sound sq he1 he2 pos12 h h2 hm
+  have hm' : BoxesMeet sq he2 he1 (@Iso3.inverse K (fieldNum K sq) pos12) := by
+    obtain ⟨p, q, hp, hq, hpq⟩ := hm
+    refine ⟨q, p, hq, hp, ?_⟩
+    rw [hpq]; exact ((iso3_inverse_act sq pos12 q h).1).symm
+  have e2 := satNormalOneway_sound sq he2 he1 _ (unit3_inverse sq pos12 h) h1 hm'
+  have e3 := satEdgeTwoway_sound sq he1 he2 pos12 h h1 h2 hm
+  simp only [intersectionTestCuboidCuboid, not_lt.mpr e1, not_lt.mpr e2, if_false, decide_eq_true_eq]
+  exact e3
+
+/-- the nine edge axes of the pass are exactly `e_i × (pos12 · e_j)`, all `i, j` (none missing, none repeated) -/
+theorem satEdgeAxes_spec (pos12 : Iso3 K) :
+    letI := fieldNum K sq
+    satEdgeAxes pos12 =
+      ([(⟨1, 0, 0⟩ : V3 K), ⟨0, 1, 0⟩, ⟨0, 0, 1⟩].flatMap fun c2 =>
+        [(⟨1, 0, 0⟩ : V3 K), ⟨0, 1, 0⟩, ⟨0, 0, 1⟩].map fun c1 => c1.cross (pos12.rot c2)) := by
+  simp only [satEdgeAxes, List.flatMap_cons, List.flatMap_nil, List.map_cons, List.map_nil, List.append_nil, List.cons_append,
+    List.nil_append, V3.cross, List.cons.injEq, V3.mk.injEq, and_true]
+  refine ⟨⟨?_, ?_, ?_⟩, ⟨?_, ?_, ?_⟩, ⟨?_, ?_, ?_⟩, ⟨?_, ?_, ?_⟩, ⟨?_, ?_, ?_⟩, ⟨?_, ?_, ?_⟩, ⟨?_, ?_, ?_⟩, ⟨?_, ?_, ?_⟩, ?_, ?_, ?_⟩ <;> ring
+
+example : BoxesMeet (fun x : ℚ => x) ⟨1, 1, 1⟩ ⟨1, 2, 1⟩ ⟨0, 0, 3/5, 4/5, ⟨1, 0, 0⟩⟩ := by
+  refine ⟨⟨1, 0, 0⟩, ⟨0, 0, 0⟩, ?_, ?_, ?_⟩
+  · simp [Cuboid3.Mem]
+  · simp [Cuboid3.Mem]
+  · simp [Iso3.act, Iso3.rot, Iso3.rotQ, Iso3.qv, V3.cross, V3.smul, V3.add, Model.two]
+
 end C02
